@@ -16,6 +16,9 @@ static int KSI_TreeNode_join(KSI_CTX *ctx, KSI_DataHasher *hsr, KSI_TreeNode *le
 __CPROVER_requires(hsr != NULL)
 __CPROVER_requires(leftSibling == NULL || leftSibling != rightSibling)
 __CPROVER_requires(TN_WELLFORMED(leftSibling) && TN_WELLFORMED(rightSibling))
+__CPROVER_requires(g_live >= 0 && g_live < 100000)
+/* (0) live-allocation accounting (C19): a join keeps exactly one new node; a refused join keeps nothing */
+__CPROVER_ensures(g_live == __CPROVER_old(g_live) + (__CPROVER_return_value == KSI_OK ? 1 : 0))
 /* (1) accepted  =>  arguments and level arithmetic are fine and no callee failed during this call */
 __CPROVER_ensures(IMPLIES(__CPROVER_return_value == KSI_OK, JOIN_ARGS_OK && JOIN_LEVELS_OK && g_tr_failed == __CPROVER_old(g_tr_failed)))
 /* (2) refused  =>  there is a reason: bad argument, level outside 0..255, a hasher error, or no memory */
@@ -59,5 +62,5 @@ __CPROVER_ensures(IMPLIES(__CPROVER_return_value != KSI_OK,
 __CPROVER_assigns(root != NULL: *root;
 		leftSibling != NULL: leftSibling->parent;
 		rightSibling != NULL: rightSibling->parent;
-		g_tr, g_tr_n, g_tr_failed, g_tr_result, g_tr_hsr, g_tr_hsr_mixed);
+		g_tr, g_tr_n, g_tr_failed, g_tr_result, g_tr_hsr, g_tr_hsr_mixed, g_live, g_alloc_failed);
 #endif
